@@ -31,6 +31,7 @@ func (cw *CodeWriter) writeIndent() {
 
 // IncreaseIndent increases the indentation level
 func (cw *CodeWriter) IncreaseIndent() {
+	defer cw.vtrace("IncreaseIndent", "")()
 	if !cw.PrettyPrint {
 		return
 	}
@@ -39,6 +40,7 @@ func (cw *CodeWriter) IncreaseIndent() {
 
 // DecreaseIndent decreases the indentation level
 func (cw *CodeWriter) DecreaseIndent() {
+	defer cw.vtrace("DecreaseIndent", "")()
 	if !cw.PrettyPrint {
 		return
 	}
@@ -49,6 +51,7 @@ func (cw *CodeWriter) DecreaseIndent() {
 
 // WriteIndent writes the current indentation level
 func (cw *CodeWriter) WriteIndent() {
+	defer cw.vtrace("WriteIndent", "")()
 	if !cw.PrettyPrint {
 		return
 	}
@@ -59,6 +62,7 @@ func (cw *CodeWriter) WriteIndent() {
 
 // WriteNewline writes a newline character if PrettyPrint is enabled
 func (cw *CodeWriter) WriteNewline() {
+	defer cw.vtrace("WriteNewline", "")()
 	if !cw.PrettyPrint {
 		return
 	}
@@ -68,6 +72,7 @@ func (cw *CodeWriter) WriteNewline() {
 
 // WriteSpace writes a space character if PrettyPrint is enabled
 func (cw *CodeWriter) WriteSpace() {
+	defer cw.vtrace("WriteSpace", "")()
 	if !cw.PrettyPrint {
 		return
 	}
